@@ -27,16 +27,21 @@ CHECKS = {
     design="5/C13"),
  "C14": dict(
     text="Proof: display_wf, apply_cells_wf, apply_attrs, neutral_wf, expand_plain, plain_wf: for all well-formed styled cells a "
-         "terminal SGR state machine shows every rune with exactly the applied attributes and is neutral at every line end. Tie: the "
-         "extracted state machine is run on the implementation's output for random style terms + layout pipelines.",
+         "terminal SGR state machine shows every rune with exactly the applied attributes and is neutral at every line end; "
+         "item_safe_neutral with C01's post/actor/failure *_good theorems: full texts and previews of items are neutral. Tie: the "
+         "extracted state machine is run on the implementation's output for random style terms + layout pipelines, and on the texts "
+         "of posts, profiles, activities and collections built by the real constructors (String/Preview equal the Pub model).",
     note="A parameter string is one opaque attribute; the terminal's own SGR interpretation beyond Term.v is outside.",
     technique="Coq proof (terminal SGR state machine over well-formed cells) + oracle run on implementation output",
     design="5/C14"),
  "C16": dict(
     text="Proof: center_height (exactly h lines for all texts and h >= 1), centered_position, center_tall, replace_last_line_spec, "
-         "set_length_len/ok/one_line. Tie: exhaustive geometry enumeration (4116) + random texts against ansi.CenterVertically, "
-         "ReplaceLastLine, SetLength; output must equal the model (the spec determines it uniquely).",
-    note="UI frame composition (ui.view) is covered once the UI model lands; this check covers the ansi layer that decides the height.",
+         "set_length_len/ok/one_line; view_height (C07's UI model: the frame of every state has exactly u_height lines). Tie: "
+         "exhaustive geometry enumeration (4116) + random texts against ansi.CenterVertically, ReplaceLastLine, SetLength; output "
+         "must equal the model (the spec determines it uniquely); and the FRAMES of the real ui.State over key/resize histories "
+         "(heights 2..50, widths 5..120, status line in every mode): each frame equals Ui.last_frame rune for rune and its line "
+         "count equals the terminal height.",
+    note="The UI model records, as a ghost list, the state each frame was computed from (u_frames); last_frame is view of the newest.",
     technique="Coq proof (line-count arithmetic over split/join) + exhaustive small-scope differential correspondence",
     design="5/C16"),
  "C17": dict(
@@ -83,9 +88,14 @@ CHECKS = {
          "widths in Z, the rendering is a well-formed styled text with printable letters, so the terminal machine shows only "
          "printable runes and newlines); gem_render_safe, plain_render_safe (all scrubbed contents); problem_safe (ANY error text); "
          "set_length_clean, status_line_safe; safe_wf. Tie: the real GetMarkup->Render path, style.Problem, Scrub, SetLength on "
-         "hostile inputs; the extracted terminal machine (safe_b) judges the implementation's own output.",
-    note="Parsers (x/net/html, goldmark) are library oracles: the theorem quantifies over every tree. Item strings (names, headers) "
-         "and UI frames compose these pieces; their composite correspondence is part of the item/UI checks. Colours must satisfy "
+         "hostile inputs; the extracted terminal machine (safe_b) judges the implementation's own output. ITEM LEVEL (Pub.v): "
+         "post_name/string/preview_good, actor_name/string/preview_good, failure_good: name, full text and preview of every post, "
+         "profile and error item are well-formed printable styled text at every width given that the stored fields are (they come "
+         "from the sanitising accessors, from Name() of related items and from the markup renderers above); tie: posts/profiles "
+         "built by the real constructors from hostile JSON, Name/String/Preview equal the Pub model run on the dumped fields, and "
+         "every Tangible's texts (activities, collections, links, failures too) pass safe_b.",
+    note="Parsers (x/net/html, goldmark) are library oracles: the theorem quantifies over every tree. Error message texts, "
+         "ago(published), url.String() and a.id.Host are library/clock-produced inputs of the item model. Colours must satisfy "
          "colors_ok, which C19's colour_is_param proves for every accepted configuration.",
     technique="Coq proof (structural induction over the parsed tree with a well-formed-styled-text invariant) + terminal-machine oracle on implementation output",
     design="5/C01"),
@@ -94,9 +104,11 @@ CHECKS = {
          "render_labels, label_opens_target, inside_opens_labelled, outside_opens_nothing, labels_width_independent, and the "
          "gemtext/plain-text analogues via instrumented renderers with erasure lemmas. Tie: Render+links equal the model; an "
          "independent oracle parses the superscripts next to unique labels out of the implementation's rendering and checks the "
-         "link list, and that the numbers shown are exactly 1..N.",
-    note="ls_events is a ghost component of the model (erased in the observable result). Attachment numbering (post.supplement) and "
-         "SelectLink on items belong to the item check.",
+         "link list, and that the numbers shown are exactly 1..N. ITEM LEVEL (Pub.v): post_supplement_spec (one link block per "
+         "attachment, the j-th numbered body-links + j), att_events_numbers, post_select_body/attachment/outside/inside, "
+         "actor_select, link_select_uri/none; tie: Post/Actor String, SelectLink for numbers -1..11 and Media equal the Pub model "
+         "on posts/profiles built by the real constructors.",
+    note="ls_events / post_events are ghost components of the model (erased in the observable result).",
     technique="Coq proof (ghost label events + structural induction over the tree) + label-parsing oracle on implementation output",
     design="5/C12"),
  "C15": dict(
@@ -163,8 +175,8 @@ CHECKS = {
          "render_size_refuted (no polynomial size bound: from depth 4 each further blockquote level at width 3 more than doubles the "
          "line count). Observed: every Tangible method of items built from (mis)shaped JSON at widths -10..300 and link numbers over Z, "
          "and Markup.Render of nested documents, under a per-case watchdog: panic, > 5 s or > 200x output blow-up is a violation.",
-    note="KNOWN FINDING C06/indent-depth-exceeds-width. Item-level rendering (pub String/Preview) has no Coq model of its own: its "
-         "pieces (markup renderers, style, ansi) do; cost is observed not proved.",
+    note="KNOWN FINDING C06/indent-depth-exceeds-width. Post/Actor rendering is modelled (Pub.v: total functions, post_preview_total); "
+         "activities and collections are observed through their Tangible methods only; cost is observed not proved.",
     technique="Coq proof of totality/clamping lemmas + refutation witness; fault-style observation of panics/hangs (partial)",
     design="5/C06"),
  "C07": dict(
@@ -174,7 +186,7 @@ CHECKS = {
          "colon_enters_command, command_types, digit_selects/appends, history_keys (= the C18 History model), move_down/up/"
          "center_key, space_opens, space_keeps_pages. Tie: the real ui.State driven key by key (incl. held loaders, resizes, arbitrary "
          "bytes) over synthetic worlds; after every key mode, buffer, page, highlighted item, loaded window, loader flags, frame "
-         "count and frame height equal Ui.update/run_task; exhaustive short sequences.",
+         "count, frame height AND the text of the frame on the screen equal Ui.update/run_task/last_frame; exhaustive short sequences.",
     note="PARTIAL in one respect: the single refinement theorem to an abstract keymap over fully-known threads (window coverage after "
          "settling) is replaced by the invariant + per-key theorems + correspondence. c/r/a/o/p/b need pub's concrete types and are "
          "no-ops on the synthetic items.",
